@@ -70,6 +70,19 @@ Outcome runWorld(const Plan & p, Ctx & c)
   const std::string key = p.name + "_rate";
   const int W = m.W;
 
+  // bystanders: another monitor and another check-up fed a steady 10 Hz; nothing done to the subjects may disturb them
+  rc::RateMonitoring byMon(2.0); rc::CheckupEqualToRate byChk("by", 10.0, 0.0); int64_t byStamp = 0; uint64_t byN = 0;
+  auto checkBystander = [&]() -> Outcome {
+      ++byN; byStamp += 100000000LL;
+      double r = byMon.update(rc::Duration(byStamp)); int st = (int)byChk.evaluate(rc::Duration(byStamp));
+      double wantR = byN >= 5 ? 10.0 : 0.0;
+      // (the check-up's own monitor has expected rate 10 Hz, hence a window of 20 periods: OK from the 21st stamp on)
+      if (r != wantR || byMon.getRate() != wantR || st != (byN >= 21 ? model::OK : model::ERROR)) {
+        return Outcome::fail("bystander-monitor-changed", fmt("another RateMonitoring/CheckupRate pair fed a steady 10 Hz reports rate %.17g status %s after %llu stamps",
+                 r, model::statusName(st), (unsigned long long)byN));
+      }
+      return Outcome::pass();
+    };
   model::ReportModel want;  // report of the check-up according to the statement
   want.status = model::ERROR; want.message = "no data received from " + p.name; want.value = "";
 
@@ -111,6 +124,7 @@ Outcome runWorld(const Plan & p, Ctx & c)
 
   for (const Ev & e : p.ev) {
     ++no; ++c.steps;
+    if ((no & 3) == 0) {Outcome ob = checkBystander(); if (!ob.ok) {return ob;}}
     if (e.kind == 2) {
       // the copy constructor must carry window, last stamp and rate over
       SIM_COUNT("op.monitor_copy_constructed");
